@@ -56,7 +56,7 @@ var targets = map[string][]string{
 	"network/router.go": {"validPeers.set", "validPeers.get", "validPeers.isValid+cond", "Router.SetValidPeers", "Router.GetValidPeers", "Router.isPeerValid",
 		"Router.Start", "Router.Stop", "Router.Send", "Router.connect", "Router.removeConnection", "Router.handleConn",
 		"Router.registerConnection+cond", "Router.launchHandleRoutine+cond", "Router.receiveServerIdentity+cond",
-		"Router.triggerConnectionErrorHandlers", "Router.connection"},
+		"Router.triggerConnectionErrorHandlers", "Router.connection+cond"},
 	"network/dispatch.go": {"BlockingDispatcher.Dispatch", "RoutineDispatcher.Dispatch"},
 	"service.go":          {"serviceManager.Process"},
 	"network/tls.go": {"makeVerifier+cond+lit", "certMaker.get+cond", "certMaker.getCertificate", "certMaker.getClientCertificate+cond", "pubFromCN+cond", "pubToCN", "mkNonce", "NewTLSListenerWithListenAddr", "NewTLSConn", "tlsConfig"},
